@@ -313,7 +313,8 @@ def recover_cases(draw, tier):
     b = draw(st.integers(0, 3))
     g = ('tun', draw(st.sampled_from(['eventually', 'always'])), draw(st.integers(0, b)), b, f)
     n = (F.horizon(g) or 0) + draw(st.integers(1, 4))
-    return {'formula': g, 'vars': vs, 'trace': draw(F.traces(vs, n=n))}
+    # the call that is rejected first: update(), or reset() before any update
+    return {'formula': g, 'vars': vs, 'trace': draw(F.traces(vs, n=n)), 'first_call': draw(st.sampled_from(['update', 'update', 'reset', 'reset+update']))}
 
 
 def check_recover(case):
@@ -336,13 +337,20 @@ def check_recover(case):
     except Exception as e:  # noqa
         return DISCARD('pastified-raises(C03/C17):' + type(e).__name__, labels)
     spec = build('dt_on', text, vs)
-    try:
-        spec.update(0, [(v, tr[v][0]) for v in vs])
-        return FAIL('accepted:dt_on:future-without-pastify', desc + '\nupdate() without pastify() returned a value', labels)
-    except Exception as e:  # noqa
-        o = exc_outcome(e)
-        if not o[2]:
-            return FAIL('wrong-exception:recover:%s' % o[1], desc + '\nupdate() without pastify() raised %s: %s' % (o[1], o[3]), labels)
+    first = case.get('first_call', 'update')
+    labels.append('first-call:' + first)
+    desc += '\nfirst (rejected) call: ' + first
+    for call in first.split('+'):
+        try:
+            if call == 'reset':
+                spec.reset()
+            else:
+                spec.update(0, [(v, tr[v][0]) for v in vs])
+            return FAIL('accepted:dt_on:future-without-pastify', desc + '\n%s() without pastify() returned normally' % call, labels)
+        except Exception as e:  # noqa
+            o = exc_outcome(e)
+            if not o[2]:
+                return FAIL('wrong-exception:recover:%s' % o[1], desc + '\n%s() without pastify() raised %s: %s' % (call, o[1], o[3]), labels)
     try:
         spec.pastify()
         got = [spec.update(i, [(v, tr[v][i]) for v in vs]) for i in range(n)]
